@@ -5,4 +5,7 @@ EXTENDS ChordKV
 Lay4 == [npos |-> <<1, 3, 5, 7>>, kpos |-> <<2, 4>>]
 \* five nodes, keys between
 Lay5 == [npos |-> <<1, 3, 5, 7, 9>>, kpos |-> <<2, 6>>]
+\* five nodes with a key in every gap between the second and the fifth (racing joins between two members)
+Lay5b == [npos |-> <<1, 3, 5, 7, 9>>, kpos |-> <<4, 6, 8>>]
+Lay5c == [npos |-> <<1, 3, 5, 7, 9>>, kpos |-> <<2, 4, 6>>]
 ====
